@@ -297,21 +297,21 @@ def discharge_all(obligations, axioms, timeout_ms=10000, seed=0, jobs=8, single_
                 still.append(ob)
         return still
 
-    left = one_round(left, 2, False) if left else []
-    # last round, in chunks: when a whole chunk fails again the function is failing en masse (a broken body, not a
-    # hard proof) and the remaining obligations keep their round-2 verdict - the function is reported as failed
-    # either way, only sooner
-    CHUNK = 8
-    n_failed = 0
+    # The split rounds run chunk by chunk.  When every obligation of a chunk is still unproved after both rounds the
+    # function is failing en masse (a broken body, not one hard proof): the remaining obligations keep their
+    # first-round verdict - the function is reported as failed either way, only much sooner.
+    CHUNK, GIVE_UP = 12, 10
+    n_bad = 0
     for i in range(0, len(left), CHUNK):
         chunk = left[i:i + CHUNK]
-        one_round(chunk, 3, True)
-        bad = [ob for ob in chunk if results[ob.oid]["status"] != "proved"]
-        n_failed += len(bad)
-        if len(bad) == len(chunk) and n_failed >= CHUNK:
+        still = one_round(chunk, 2, False)
+        if still:
+            one_round(still, 3, True)
+        n_bad += len([ob for ob in chunk if results[ob.oid]["status"] != "proved"])
+        if n_bad >= GIVE_UP:
             for ob in left[i + CHUNK:]:
                 results[ob.oid]["reason"] = (results[ob.oid].get("reason") or "") + \
-                    " (last round skipped: %d obligations of this function already failed it)" % n_failed
+                    " (split rounds skipped: %d obligations of this function had already failed them)" % n_bad
             break
     return results
 
